@@ -296,6 +296,38 @@ fn cache_histories(acc: &mut Acc, reference: &[Vec<[Res; 2]>], rng: &mut Rng, ro
     }
 }
 
+/// Histories over inputs that share their start address (a prefix view of a string, then the whole
+/// string, and back): anything remembered per haystack address or per offset would show here.
+fn same_address_histories(acc: &mut Acc) {
+    let n = sync_parsers().len();
+    for gi in 0..n {
+        let shared = sync_parsers();
+        let name = shared[gi].0;
+        for s in POOL.iter() {
+            let cuts: Vec<usize> = s.char_indices().map(|(i, _)| i).chain([s.len()]).collect();
+            for cut in cuts {
+                let pre = &s[..cut];
+                for check in [false, true] {
+                    let want_pre = run_dyn(&sync_parsers()[gi].1, pre, check);
+                    let want_all = run_dyn(&sync_parsers()[gi].1, s, check);
+                    for (k, (inp, want)) in [(pre, &want_pre), (*s, &want_all), (pre, &want_pre), (*s, &want_all)].iter().enumerate() {
+                        acc.evaluations += 1;
+                        acc.count("same_address_history_steps", 1);
+                        let got = guarded(|| run_dyn(&shared[gi].1, inp, check));
+                        if got.as_ref().ok() != Some(*want) {
+                            acc.viol(Viol { weight: 200 + s.len(), what: format!("C13: [{}] step {} of the history [prefix {:?}, whole {:?}, prefix, whole] (inputs sharing their start address, {}): got {:?}, a fresh parser gives {:?}", name, k + 1, pre, s, if check { "check" } else { "parse" }, got, want), detail: json!({"grammar_text": name, "input": s, "prefix": pre}) });
+                            return;
+                        }
+                    }
+                    if cut > 0 && cut < s.len() {
+                        acc.nontrivial_rand.insert(crate::rng::hash64(format!("addr|{}|{}|{}|{}", gi, s, cut, check).as_bytes()));
+                    }
+                }
+            }
+        }
+    }
+}
+
 static CLOCK: AtomicU64 = AtomicU64::new(0);
 
 /// One concurrent round: `threads` threads share the parsers (Arc<dyn>) and the static Cache, each
@@ -419,6 +451,7 @@ pub fn run(cx: &RunCtx) -> i32 {
     let mut rng = Rng::derive(seed, 0xCAC4E, 0);
     let mut cacc = Acc::default();
     cache_histories(&mut cacc, &reference, &mut rng, cx.t(2_000, 40_000));
+    same_address_histories(&mut cacc);
     let mut sigs: HashSet<u64> = HashSet::new();
     let rounds = cx.t(300, 6_000);
     for r in 0..rounds {
@@ -440,7 +473,7 @@ pub fn run(cx: &RunCtx) -> i32 {
         cx,
         acc,
         Finish {
-            rule: format!("(1) every grammar with <= {size} nodes over a class with repetitions, folds, validation, all recovery strategies, labels, map_err, memoized, with_state and context providers: a pool of 3 inputs <= 3 over {{a,b,é}} mixing accepted and rejected ones; every 8th grammar with ALL {} histories of (input, parse|check) steps of length <= {} through one parser value (others: 12 sampled histories), consecutive steps through different wrappers (original, clone, &, &&, Box, Rc, Arc, boxed(), Either::Left, Either::Right; every 4th through an Rc handle held for the whole history); {n_rand} random grammars (a third recursive / mutually recursive) with 6 random histories of length 2..6. The k-th result (acceptance, output with extents, full error list, inspector state, probe trace, logical step count) must equal a freshly built parser's. (2) Cache::get() at a new input lifetime for every step of random histories. (3) {rounds} rounds of 2..8 threads x 24 parses sharing 6 Send+Sync parsers (5 under Miri: no regex) (text, regex, memoized, recovery, folds) behind Arc<dyn Parser> and a static Cache: every result equals the sequential reference; start/finish events through one atomic clock. (4) the thread workload under Miri with different scheduler seeds (thorough: TSan). Non-trivial: histories of >= 2 steps over a pool with both accepted and rejected inputs; distinct interleavings", seqs.len(), cx.t(3, 4)),
+            rule: format!("(1) every grammar with <= {size} nodes over a class with repetitions, folds, validation, all recovery strategies, labels, map_err, memoized, with_state and context providers: a pool of 3 inputs <= 3 over {{a,b,é}} mixing accepted and rejected ones; every 8th grammar with ALL {} histories of (input, parse|check) steps of length <= {} through one parser value (others: 12 sampled histories), consecutive steps through different wrappers (original, clone, &, &&, Box, Rc, Arc, boxed(), Either::Left, Either::Right; every 4th through an Rc handle held for the whole history); {n_rand} random grammars (a third recursive / mutually recursive) with 6 random histories of length 2..6. The k-th result (acceptance, output with extents, full error list, inspector state, probe trace, logical step count) must equal a freshly built parser's. (2) Cache::get() at a new input lifetime for every step of random histories; histories [prefix view, whole string, prefix, whole] over inputs that share their start address, for every cut of every pool string. (3) {rounds} rounds of 2..8 threads x 24 parses sharing 6 Send+Sync parsers (5 under Miri: no regex) (text, regex, memoized, recovery, folds) behind Arc<dyn Parser> and a static Cache: every result equals the sequential reference; start/finish events through one atomic clock. (4) the thread workload under Miri with different scheduler seeds (thorough: TSan). Non-trivial: histories of >= 2 steps over a pool with both accepted and rejected inputs; distinct interleavings", seqs.len(), cx.t(3, 4)),
             exhaustive: false,
             exhaustive_note: "histories: all sequences up to the stated length for every 8th enumerated grammar".into(),
             assumptions: vec![
@@ -452,6 +485,7 @@ pub fn run(cx: &RunCtx) -> i32 {
                 ("steps_via_Either::Right".into(), 1000),
                 ("steps_via_Arc".into(), 1000),
                 ("cache_history_steps".into(), 1000),
+                ("same_address_history_steps".into(), 1000),
                 ("concurrent_parses".into(), 10_000),
                 ("parses_started_while_another_was_running".into(), 100),
                 ("distinct_interleavings_of_parse_start_finish_events".into(), 20),
